@@ -90,4 +90,141 @@ theorem handle_errors_inner_matcher_dropped_by_old_code :
 
 example : (serveAdapted (adapt wBlocks) 404 ⟨0, 0, 1, 0, [], none, none⟩).map (·.status) = some (some 201) := by decide
 
+/-! ### the whole site: the adapted error routes behave as the Caddyfile says -/
+
+section SortMap
+variable {α β : Type}
+
+theorem insR_map (lt : α → α → Bool) (lt' : β → β → Bool) (f : α → β)
+    (h : ∀ a b, lt' (f a) (f b) = lt a b) (x : α) :
+    ∀ l : List α, C16.insR lt' (f x) (l.map f) = (C16.insR lt x l).map f
+  | [] => rfl
+  | y :: ys => by
+    simp only [List.map_cons, C16.insR, h]
+    split
+    · simp [insR_map lt lt' f h x ys]
+    · simp
+
+theorem foldl_insR_map (lt : α → α → Bool) (lt' : β → β → Bool) (f : α → β)
+    (h : ∀ a b, lt' (f a) (f b) = lt a b) :
+    ∀ (l acc : List α), (l.map f).foldl (fun acc x => C16.insR lt' x acc) (acc.map f)
+      = (l.foldl (fun acc x => C16.insR lt x acc) acc).map f
+  | [], acc => rfl
+  | x :: xs, acc => by
+    simp only [List.map_cons, List.foldl_cons]
+    rw [insR_map lt lt' f h x acc]
+    exact foldl_insR_map lt lt' f h xs _
+
+/-- Go's insertion sort commutes with a map that preserves the comparator -/
+theorem insertionSort_map (lt : α → α → Bool) (lt' : β → β → Bool) (f : α → β)
+    (h : ∀ a b, lt' (f a) (f b) = lt a b) (l : List α) :
+    C16.insertionSort lt' (l.map f) = (C16.insertionSort lt l).map f := by
+  unfold C16.insertionSort C16.isortR
+  have := foldl_insR_map lt lt' f h l []
+  simp only [List.map_nil] at this
+  rw [this, List.map_reverse]
+
+end SortMap
+
+/-- pointwise relation of two lists of equal length -/
+inductive All₂ {α β : Type} (R : α → β → Prop) : List α → List β → Prop where
+  | nil : All₂ R [] []
+  | cons {a b l l'} : R a b → All₂ R l l' → All₂ R (a :: l) (b :: l')
+
+theorem all₂_isEmpty {α β : Type} {R : α → β → Prop} {l : List α} {l' : List β} (h : All₂ R l l') :
+    l.isEmpty = l'.isEmpty := by
+  cases h <;> rfl
+
+/-- two routes no chain can tell apart -/
+def RouteEquiv (a b : Route) : Prop := ∀ k r t, runRoute a k r t = runRoute b k r t
+
+theorem runRoutes_congr : ∀ (l l' : List Route), All₂ RouteEquiv l l' →
+    ∀ k, runRoutes l k = runRoutes l' k
+  | [], [], _, k => rfl
+  | [], _ :: _, h, _ => by cases h
+  | _ :: _, [], h, _ => by cases h
+  | a :: l, b :: l', h, k => by
+    cases h with
+    | cons hab hl =>
+      have ih := runRoutes_congr l l' hl k
+      funext r t
+      simp only [runRoutes, ih]
+      exact hab _ r t
+
+theorem forall₂_map_same {γ : Type} (f g : γ → Route) (h : ∀ x, RouteEquiv (f x) (g x)) :
+    ∀ l : List γ, All₂ RouteEquiv (l.map f) (l.map g)
+  | [] => .nil
+  | x :: xs => .cons (h x) (forall₂_map_same f g h xs)
+
+theorem forall₂_flatten : ∀ (ls ls' : List (List Route)),
+    All₂ (All₂ RouteEquiv) ls ls' → All₂ RouteEquiv ls.flatten ls'.flatten
+  | [], [], _ => .nil
+  | [], _ :: _, h => by cases h
+  | _ :: _, [], h => by cases h
+  | a :: l, b :: l', h => by
+    cases h with
+    | cons hab hl =>
+      simp only [List.flatten_cons]
+      have ih := forall₂_flatten l l' hl
+      clear hl
+      induction hab with
+      | nil => simpa using ih
+      | cons hx _ ihx => exact .cons hx ihx
+
+theorem forall₂_map_blocks {γ : Type} (f g : γ → List Route)
+    (h : ∀ x, All₂ RouteEquiv (f x) (g x)) :
+    ∀ l : List γ, All₂ (All₂ RouteEquiv) (l.map f) (l.map g)
+  | [] => .nil
+  | x :: xs => .cons (h x) (forall₂_map_blocks f g h xs)
+
+/-- the comparator of the block sort only looks at "empty?" and "does the first route have a
+    matcher?" — both builds agree on that -/
+theorem blockLess_same (p q : StatusArgs × List Dir) :
+    blockLess (blockRoutes p.1 p.2) (blockRoutes q.1 q.2)
+      = blockLess (blockRoutesIntended p.1 p.2) (blockRoutesIntended q.1 q.2) := by
+  have key : ∀ (a : StatusArgs) (ds : List Dir),
+      (blockRoutes a ds).isEmpty = (blockRoutesIntended a ds).isEmpty ∧
+      firstHasNoMatcher (blockRoutes a ds) = firstHasNoMatcher (blockRoutesIntended a ds) := by
+    intro a ds
+    cases ds with
+    | nil => simp [blockRoutes, blockRoutesIntended, firstHasNoMatcher]
+    | cons d ds =>
+      simp only [blockRoutes, blockRoutesIntended, List.map_cons, List.isEmpty_cons, true_and]
+      unfold dirRoute dirRouteIntended
+      by_cases he : (a.classes.isEmpty && a.codes.isEmpty) = true
+      · simp [he, firstHasNoMatcher]
+      · cases hp : d.path <;> simp [he, firstHasNoMatcher]
+  unfold blockLess
+  rw [(key p.1 p.2).1, (key p.1 p.2).2, (key q.1 q.2).1, (key q.1 q.2).2]
+
+/-- **a site's `handle_errors` blocks mean what they say**: whatever the blocks, their status
+    arguments, the matchers of their directives and the order the adapter's sort puts them in, the
+    error routes the adapter builds answer every error on every request exactly like the routes the
+    Caddyfile describes (status selected AND the directive's own matcher). -/
+theorem handle_errors_site_behaves_as_written (blocks : List Block) (s : Nat) (req : Req) :
+    serveAdapted (adapt blocks) s req = serveAdapted (adaptIntended blocks) s req := by
+  unfold adapt adaptIntended adaptWith
+  cases hp : parseBlocks blocks with
+  | none => rfl
+  | some ps =>
+    simp only [serveAdapted]
+    -- both block lists are the same sorted list of parsed blocks, mapped with the two builds
+    let L : (StatusArgs × List Dir) → (StatusArgs × List Dir) → Bool :=
+      fun p q => blockLess (blockRoutes p.1 p.2) (blockRoutes q.1 q.2)
+    have h1 := insertionSort_map L blockLess (fun p => blockRoutes p.1 p.2) (fun _ _ => rfl) ps
+    have h2 := insertionSort_map L blockLess (fun p => blockRoutesIntended p.1 p.2)
+      (fun a b => (blockLess_same a b).symm) ps
+    rw [h1, h2]
+    have hb : ∀ x : StatusArgs × List Dir,
+        All₂ RouteEquiv (blockRoutes x.1 x.2) (blockRoutesIntended x.1 x.2) := fun x =>
+      forall₂_map_same (dirRoute x.1) (dirRouteIntended x.1)
+        (fun d k r t => handle_errors_directive_keeps_its_matcher x.1 d k r t) x.2
+    have hf := forall₂_flatten _ _ (forall₂_map_blocks _ _ hb (C16.insertionSort L ps))
+    have hr := runRoutes_congr _ _ hf errorEmptyK
+    have he := all₂_isEmpty hf
+    simp only [serve, hr, he]
+
+example : (serveAdapted (adapt [⟨[str "5xx"], [⟨none, 211⟩]⟩, ⟨[str "404", str "4xx"], [⟨some 1, 201⟩, ⟨none, 202⟩]⟩]) 404
+    ⟨0, 0, 3, 0, [], none, none⟩).map (·.status) = some (some 202) := by decide
+
 end CaddyModel.C05
